@@ -4,6 +4,7 @@ package c09
 
 import (
 	"fmt"
+	"runtime"
 	"sync"
 	"sync/atomic"
 	"time"
@@ -848,7 +849,7 @@ func runClear(c *core.Ctx, idx int) {
 
 // Run is the check.
 func Run(c *core.Ctx) {
-	c.Note("rule", "directed gates: 6 templates (submit, burst, resize down (wait/no wait), JoinAll, WaitAll) x 5 worker hold points x 3 partner points x {1,2,3} workers, each holding one worker at the hold point until the partner call passed its point (infeasible pairs are released and counted); clear: DefaultTaskQueue.Clear called while every worker is blocked inside a task, in the middle of a history of pops (tasks added afterwards are owed, cleared ones must not run); dep: rounds of task pairs where the first waits inside Run for the start of the second (2..6 workers) decided by a stuck predicate that accepts workers blocked inside waiting tasks; noise: seeded random scenarios (1..16 workers, bursts, single submissions separated by idle periods with no pool call, concurrent submitters, WaitAll, resizes with/without wait, tasks that sleep or submit children) with random yields/sleeps at lock-free hook points; monitors: exactly-once table per task id, stuck-state predicate over the hook trace + scheduler state (Cond.Wait) for lost wake-ups and non-converging worker counts, stamp order for WaitAll/JoinAll/SetWorkerCount returns; non-trivial/distinct = distinct interleaving signatures (hash of the (goroutine role, hook point) sequence) plus feasible gate cases")
+	c.Note("rule", "directed gates: 7 templates (submit, burst, resize down (wait/no wait), JoinAll, WaitAll, resize to zero) x 5 worker hold points x 3 partner points x {1,2,3} workers, each holding one worker at the hold point until the partner call passed its point (infeasible pairs are released and counted); clear: DefaultTaskQueue.Clear called while every worker is blocked inside a task, in the middle of a history of pops (tasks added afterwards are owed, cleared ones must not run); dep: rounds of task pairs where the first waits inside Run for the start of the second (2..6 workers) decided by a stuck predicate that accepts workers blocked inside waiting tasks; noise: seeded random scenarios (1..16 workers, bursts, single submissions separated by idle periods with no pool call, concurrent submitters, WaitAll, resizes with/without wait, tasks that sleep or submit children) with random yields/sleeps at lock-free hook points; monitors: exactly-once table per task id, stuck-state predicate over the hook trace + scheduler state (Cond.Wait) for lost wake-ups and non-converging worker counts, stamp order for WaitAll/JoinAll/SetWorkerCount returns; non-trivial/distinct = distinct interleaving signatures (hash of the (goroutine role, hook point) sequence) plus feasible gate cases")
 	gcs := gateCases()
 	for i, gc := range gcs {
 		if !c.Take("gate", i) {
@@ -881,6 +882,11 @@ func Run(c *core.Ctx) {
 	n := c.Pick(6000, 120000)
 	if c.Race {
 		n = c.Pick(1500, 20000)
+	} else if runtime.GOMAXPROCS(0) <= 2 {
+		// variant p2: the pool's own polling loops (WaitAll, JoinAll,
+		// SetWorkerCount sleeping 5 ns per round) compete with the workers for
+		// two processors; a scenario costs seconds instead of milliseconds
+		n = c.Pick(1200, 20000)
 	}
 	for i := 0; i < n; i++ {
 		if c.Violations() >= 60 && !c.Replay() {
